@@ -585,6 +585,9 @@ func init() {
 	reg(&propDef{id: "C18", level: "exploration", crashIsViol: false,
 		batches: []batch{{name: "pauses", quick: 2400, thorough: 90000}},
 		rule:    "each evaluation is one simulated transfer (protocol 3 or 4, T in {2,5,20} s) paused 1-3 times at tape-chosen messages by Ctrl-C and continued through the real prompt after a think time of 0.02T..3T; non-trivial = at least one pause/continue cycle completed and the outcome rules (short pause => success with identical files; long pause => success or error, never a hang or a wrong file) and the no-data-while-paused monitor were evaluated; distinct = distinct (configuration + pause band + cycles, schedule-trace hash, tape hash)"})
+	reg(&propDef{id: "C03", level: "exploration", crashIsViol: true,
+		batches: []batch{{name: "buffer", quick: 3000, thorough: 120000}},
+		rule:    "each evaluation drives a real trzszBuffer with a producer task (addBuffer in a chosen segmentation, optional 1 ms pauses on the fake clock) and a consumer task issuing a tape-chosen sequence of strict line reads, junk-tolerant line reads and sized binary reads (or clean Windows-framed reads), under seeded schedules; streams of up to 12 bytes over {a,b,#,:,9,LF,CR,Ctrl-C} are run under ALL 2^(n-1) segmentations inside the same evaluation, longer streams (20-620 bytes, structured or random) under four random segmentations of increasing density; oracle: a 40-line reference parser applied to the concatenated stream (same values, same order, nothing lost/duplicated/merged, Ctrl-C interrupts) and promptness (after a pause during which the world went quiet, every read whose answer was complete has returned); non-trivial = at least one complete answer compared; distinct = distinct (class, schedule-trace hash, tape hash)"})
 	reg(&propDef{id: "C05", level: "exploration", crashIsViol: true,
 		batches: []batch{{name: "transparency", quick: 2000, thorough: 80000}},
 		rule:    "each evaluation is one real filter (option sets drag x tracelog x zmodem x OSC52) after a history of 0-3 real transfers (ended by success, user stop through the prompt, or SIGINT at the server), fed 3-14 probe chunks in both directions: random binary, VT100 sequences, truncated/corrupted trigger look-alikes, zmodem-like and OSC52-like fragments (including vetoed zmodem headers and genuine OSC52), scroll-back of finished transfers, control keys, path-like input naming files that do not exist, existing paths not in the dragged-path shape, bracketed paste; any segmentation and coalescing; oracle: bytes at the terminal == bytes the shell wrote and bytes at the server side == bytes typed, exactly, and no transfer starts; non-trivial = probe bytes compared; distinct = distinct (options + history + probe kinds, schedule-trace hash, tape hash)"})
